@@ -278,7 +278,7 @@ static void on_term (int sig) { (void) sig; g_term = 1; }
 static void run_one (const Family * F, long item)
 {
 	g_cur_item = item;
-	shm->cur = item; shm->t_start_ms = now_ms ();
+	shm->t_start_ms = now_ms (); shm->cur = item;   /* start time first: the parent reads cur, then the time */
 	tr_reset ();
 	F->run (item);
 	uint64_t h = mix64 (tr_value () ^ mix64 ((uint64_t) item + 0x9e3779b97f4a7c15ULL));
